@@ -45,7 +45,7 @@ def arbitrary(rng, depth=1):
     if r < 0.65:
         return rng.choice((True, False))
     if r < 0.75:
-        return rng.choice((0.5, -2.25, 10.0))
+        return rng.choice((0.5, -2.25, 10.0, 1.0, 0.0, 2.0, -1.0))
     if depth <= 0:
         return 0
     if r < 0.88:
@@ -554,6 +554,13 @@ class Plain:
     pass
 
 
+class SameRepr:
+    """Distinct, hashable objects that all print the same."""
+
+    def __repr__(self):
+        return "<same>"
+
+
 def _gen():
     yield 1
 
@@ -648,6 +655,10 @@ def zoo():
     z["dict_obj_key"] = {Plain(): 1}
     z["dict_ellipsis_key"] = {...: ...}
     z["dict_1_True_1.0"] = {1: "a", 2.0: "b", False: "c"}
+    z["dict_two_nan_keys"] = {float("nan"): 1, float("nan"): 2}
+    z["dict_two_decimal_nan_keys"] = {decimal.Decimal("NaN"): 1, decimal.Decimal("NaN"): 2, decimal.Decimal("NaN"): 3}
+    z["dict_two_same_repr_keys"] = {SameRepr(): 1, SameRepr(): 2}
+    z["list_same_repr_members"] = [SameRepr(), SameRepr(), float("nan"), float("nan")]
     z["dict_mixed"] = {"a": float("nan"), "b": [float("inf")], 3: (1,), None: {1, 2}}
     z["list_mixed"] = [None, 1, "a", 2.5, b"x", (1,), {1}, ..., float("nan")]
     z["nested_deep"] = [[[[[[[[1]]]]]]]]
